@@ -324,6 +324,19 @@ def for_each_to_index_loop(s, rewrites=None):
         s = s[:m.start()] + new + s[cb + 1 + tail.end():]
 
 
+def extend_to_env(s, rewrites=None):
+    """D22: the statement `E.extend(V.into_iter());` with a Vec place E and a local Vec V becomes `vec_extend(&mut E, V);` where
+    `vec_extend` is an environment function standing for <Vec<T> as Extend<T>>::extend over vec::IntoIter<T>: every element of V is
+    appended to E, in order (ensures final(E)@ == old(E)@ + V@)."""
+    rx = re.compile(r'((?:self|\w+)(?:\s*\.\s*\w+)*)\s*\.extend\(\s*(\w+)\.into_iter\(\)\s*\)')
+
+    def rep(m):
+        if rewrites is not None:
+            rewrites.append('D22 extend of %s by %s' % (re.sub(r'\s+', '', m.group(1)), m.group(2)))
+        return 'vec_extend(&mut %s, %s)' % (re.sub(r'\s+', '', m.group(1)), m.group(2))
+    return rx.sub(rep, s)
+
+
 def position_to_loop(s, rewrites=None):
     """D17: the expression `E.iter().position(|x| PRED)` over a Vec/VecDeque place E (PRED an expression) becomes the search
     loop it stands for, as a block expression:
@@ -614,6 +627,14 @@ def splice_at(fn_text, anchor_re, ghost, before=True, occurrence=0):
         return fn_text[:ls] + ghost.rstrip() + '\n' + fn_text[ls:]
     le = fn_text.find('\n', m.end())
     return fn_text[:le + 1] + ghost.rstrip() + '\n' + fn_text[le + 1:]
+
+
+def splice_body_start(fn_text, ghost):
+    """S1: insert a ghost statement as the first statement of the fn body (may only mention parameters and old(..))."""
+    if not _GHOST_OK.match(ghost):
+        raise Undecided('refusing to splice non-ghost text')
+    i = body_open(fn_text)
+    return fn_text[:i + 1] + '\n' + ghost.rstrip() + fn_text[i + 1:]
 
 
 class Asm:
